@@ -34,6 +34,12 @@ def load_templates():
                   text='Reservoir Model, 3\nReservoir Depth, 3\nEnd-Use Option, 2\nPrint Output to Console, 0\n'))
     t.append(dict(name='geo_minimal_2seg', kind='geo', cost='fast',
                   text='Reservoir Model, 4\nReservoir Depth, 3\nNumber of Segments, 2\nThickness 1, 1.5\nEnd-Use Option, 1\nPower Plant Type, 2\nPrint Output to Console, 0\n'))
+    # the two reservoir models whose examples are slow (multiple parallel fractures, linear heat sweep), cut down to ten yearly
+    # time steps so that the quick tier reaches these families in every few histories
+    t.append(dict(name='geo_mpf_small', kind='geo', cost='fast',
+                  text=WL.GEO_BASE_2 + 'Reservoir Model, 1\nPlant Lifetime, 10\nTime steps per year, 1\n'))
+    t.append(dict(name='geo_lhs_small', kind='geo', cost='fast',
+                  text=WL.GEO_BASE_2 + 'Reservoir Model, 2\nPlant Lifetime, 10\nTime steps per year, 1\n'))
     for n, cost in (('example4.txt', 'fast'), ('example13.txt', 'fast'), ('example5.txt', 'fast'), ('example3.txt', 'fast'),
                     ('example10_HP.txt', 'fast'), ('example11_AC.txt', 'fast'), ('S-DAC-GT.txt', 'fast'), ('example2.txt', 'fast'),
                     ('MC_Fervo_Norbeck_Latimer_2024.txt', 'fast'),
@@ -131,6 +137,70 @@ def declared_ranges():
 
 
 # (the last factor gives a value with seven significant digits: more than any column of the report prints)
+def provided_sensitive():
+    """[(parameter name, default value as text)] for the numeric parameters whose `.Provided` flag some code branches on (found by
+    scanning the simulator's sources for `<attribute>.Provided` and resolving the attribute on a model): for these, "the
+    file states the value" and "the file is silent" are different requests even when the stated value is the default"""
+    import glob
+    import re
+    import sys
+    attrs = set()
+    for f in sorted(glob.glob(os.path.join(REPO, 'src', 'geophires_x', '*.py'))):
+        try:
+            with open(f, encoding='utf-8') as fh:
+                txt = fh.read()
+        except OSError:
+            continue
+        for m in re.finditer(r'(\w+)\.Provided\b(?!\s*=(?!=))', txt):
+            attrs.add(m.group(1))
+    out = {}
+    argv = sys.argv
+    try:
+        sys.argv = ['']
+        import geophires_x.Model as M
+        try:
+            m = M.Model(enable_geophires_logging_config=False, input_file=os.devnull)
+            objs = [m.reserv, m.wellbores, m.surfaceplant, m.economics]
+        except Exception:  # noqa: BLE001
+            objs = []
+        for o in objs:
+            for a in sorted(attrs):
+                p = getattr(o, a, None)
+                name, dv = getattr(p, 'Name', None), getattr(p, 'DefaultValue', None)
+                lo, hi = getattr(p, 'Min', None), getattr(p, 'Max', None)
+                ar = getattr(p, 'AllowableRange', None)
+                legal = (isinstance(lo, (int, float)) and isinstance(hi, (int, float)) and lo <= dv <= hi) if isinstance(dv, (int, float)) and not ar \
+                    else (bool(ar) and dv in ar)
+                # (defaults outside the declared range are "not set" sentinels such as -1: stating them is an input error)
+                if legal and isinstance(name, str) and not isinstance(dv, bool) and name in getattr(o, 'ParameterDict', {}):
+                    out[name] = repr(float(dv)) if isinstance(dv, float) else str(dv)
+    finally:
+        sys.argv = argv
+    return sorted(out.items())
+
+
+def add_default_tweaks(items):
+    """a few fixed subsets of `items` spelled out with their default values, as one multi-line tweak each"""
+    if not items or any(t[0] == items[0][0] and 'explicit-defaults' in t[1][0] for t in GEO_TWEAKS):
+        return
+    subsets = [items, items[0::2], items[1::2], [x for x in items if 'Overpressure' not in x[0]], items[:len(items) // 2], items[len(items) // 2:]]
+    vals = []
+    for sub in subsets:
+        if not sub:
+            continue
+        first, rest = sub[0], sub[1:]
+        vals.append(first[1] + ', -- explicit-defaults' + ''.join(f'\n{n}, {v}' for n, v in rest))
+    GEO_TWEAKS.append((items[0][0], vals))
+    # paired with a sibling moved off its default (the provided/not-provided logic mostly arbitrates between two parameters)
+    for j, (n, v) in enumerate(items[:12]):
+        try:
+            moved = f'{float(v) * 1.5:.6g}' if float(v) != 0 else '1.5'
+        except ValueError:
+            continue
+        vals2 = [moved + ''.join(f'\n{n2}, {v2}' for n2, v2 in items if n2 != n)]
+        GEO_TWEAKS.append((n, vals2))
+
+
 FACTORS = ['0.9', '1.1', '0.5', '2', 'min', 'max', '1.0123457']
 
 
@@ -183,6 +253,9 @@ GEO_TWEAKS = [
     ('Reservoir Depth', ['2.718282', '3.141593']),
     ('Injection Temperature', ['63.33333']),
     ('Production Flow Rate per Well', ['47.61905']),
+    # zero costs: table rows and fields that print as 0.00 / -0.00 throughout
+    ('Total Capital Cost', ['0', '0\nConstruction Years, 2', '0.001']),
+    ('Total O&M Cost', ['0']),
     # optional behaviours switched on by extra lines
     ('Units:Bottom-hole temperature', ['degF', 'degK']),
     ('Units:Net Electricity Production', ['kW']),
